@@ -346,6 +346,13 @@ def one_table(ctx, world, tno, forced=None):
             stn, sbytes = saved["t"]
             impl.append("ok %s %s" % (cc.hexs(stn), cc.hexb(sbytes)))
             exc = None
+            if saved.get("other") != ("uint8_t", b"\x07") or \
+                    set(saved) != {"t", "other"}:
+                return fail({"kind": "bystander-table"},
+                            "saving changed the other table of the container "
+                            "or the set of tables: %r" % sorted(
+                                (k, v[0], v[1].hex())
+                                for k, v in saved.items()))
         except (Exception, core.ImplTimeout) as e:   # noqa
             exc = type(e).__name__
             if exc == "DecodeError":
